@@ -34,7 +34,7 @@ RULE = ("(a) round trip: fields on 1-4-d meshes, all four int/float combinations
         "files (type, version, unordered/equal corners, wrong n/nvdim/labels/shapes, broadcastable arrays, stray/off-grid/"
         "duplicate subregions, upper-case bc, dtype changes): accept/reject and resulting state vs model; (c) legacy-layout files "
         "fabricated with h5py (int/float corners in either order, optional valid/invalid side-car json) vs the model of the "
-        "reader as coded, and the documented reader executed with the real constructors vs legacyLoadDoc; (d) suffix dispatch "
+        "legacy reader, and vs Region/Mesh/Field built from the stored items with the real constructors; (d) suffix dispatch "
         "of to_file/from_file for 14 suffixes.  Oracle on the real code alone: from_file(to_file(f)) == f and every item the "
         "property lists is identical (corners, names, units, tolerance, n, bc, subregion names/order/corners/meta, labels, "
         "unit incl. None, values bit-identical - int data numerically, real stays real, complex stays complex - validity, "
@@ -50,11 +50,10 @@ ASSUMPTIONS = ["exact regime only: dyadic corners and cells, subregions on cell 
                "field written and read (op inv); the spec comparison is made where they hold",
                "the component-to-axis mapping is not stored in the file and not in the property's list: a custom mapping comes "
                "back as the default one (tag observation:custom-vdim_mapping-not-restored), model and code agree on that"]
-UNPROVED = ["legacy_read is FALSE of the code as it stands (every legacy file is rejected: finding D31); proved instead: "
-            "legacy_rejected (the code) and legacy_read_doc (the documented reader, nvdim=dim)",
-            "h5_roundtrip_partial excludes the unit string 'None' (false of the code: unit_None_is_lost, finding D32)",
+UNPROVED = ["h5_roundtrip_partial excludes the unit string 'None' (false of the code: unit_None_is_lost, known finding D32)",
             "int64 -> float64 conversion on reading is exact in the rational model; beyond 2^53 it is not in binary64 "
-            "(finding D33): oracle only"]
+            "(known finding D33): oracle only",
+            "legacy_read_sidecar takes the acceptance of the side-car's subregions by the mesh as hypothesis (C14's subject)"]
 BUDGET = {"quick": 75, "thorough": 700}
 
 DIMNAMES = ["x", "y", "z", "a", "b", "c", "u", "v", "w", "t", "ξ", "len", "x0", "r_1"]
@@ -704,23 +703,41 @@ def legacy_json(c, f, side):
 
 
 def oracle_legacy(c, f, side, res, fail):
-    """'files written by the legacy layout are still read': the documented field"""
+    """'files written by the legacy layout are still read': a well-formed legacy file loads to the documented field"""
     if res[0] != "ok":
         fail(f"legacy-layout file rejected: {res[1]}")
         return
     g = res[1]
-    r = f.mesh.region
+    r = f.mesh.region   # p1/p2 of the file are this region's corners, in either order
     if not same_corners(r.pmin, g.mesh.region.pmin) or not same_corners(r.pmax, g.mesh.region.pmax):
-        fail("legacy file: region corners differ from min/max of p1, p2")
-    if [int(k) for k in g.mesh.n] != [int(k) for k in f.mesh.n] or g.nvdim != f.nvdim:
-        fail("legacy file: n or component count differ")
-    if g.array.shape != f.array.shape or not np.array_equal(g.array, f.array) or (g.array.dtype.kind == "c") != (f.array.dtype.kind == "c"):
-        fail("legacy file: values differ")
-    if not g.valid.all():
-        fail("legacy file: cells invalid")
-    want = [k for k, _ in side] if side is not None else []
-    if list(g.mesh.subregions) != want:
-        fail(f"legacy file: subregions {list(g.mesh.subregions)} vs side-car {want}")
+        fail(f"legacy file: region {g.mesh.region.pmin.tolist()}..{g.mesh.region.pmax.tolist()} is not the element-wise "
+             f"min/max of p1, p2 ({r.pmin.tolist()}..{r.pmax.tolist()})")
+    if [int(k) for k in g.mesh.n] != [int(k) for k in f.mesh.n]:
+        fail(f"legacy file: cell counts {g.mesh.n.tolist()} vs stored {f.mesh.n.tolist()}")
+    if g.nvdim != f.nvdim:
+        fail(f"legacy file: component count {g.nvdim} vs stored {f.nvdim}")
+    fa, ga = f.array, g.array
+    if ga.shape != fa.shape or (ga.dtype.kind == "c") != (fa.dtype.kind == "c"):
+        fail(f"legacy file: array {fa.dtype}{fa.shape} read as {ga.dtype}{ga.shape}")
+    elif fa.dtype == ga.dtype:
+        if bits(fa) != bits(ga):
+            fail("legacy file: values are not bit-identical")
+    else:
+        bad = [(x, y) for x, y in zip(fa.reshape(-1).tolist(), ga.reshape(-1).tolist()) if not (Fraction(y) == Fraction(x))]
+        if bad:
+            fail(f"legacy file: value {bad[0][0]!r} read as {bad[0][1]!r}")
+    if g.valid.dtype != np.bool_ or g.valid.shape != tuple(int(k) for k in f.mesh.n) or not g.valid.all():
+        fail("legacy file: not every cell valid")
+    if g.unit is not None:
+        fail(f"legacy file: unit {g.unit!r} (none is stored)")
+    want = side if side is not None else []
+    if list(g.mesh.subregions) != [k for k, _ in want]:
+        fail(f"legacy file: subregions {list(g.mesh.subregions)} vs side-car {[k for k, _ in want]}")
+    else:
+        for k, v in want:
+            t = g.mesh.subregions[k]
+            if not same_corners(np.asarray(v["pmin"]), t.pmin) or not same_corners(np.asarray(v["pmax"]), t.pmax):
+                fail(f"legacy file: subregion {k!r} {t.pmin.tolist()}..{t.pmax.tolist()} vs side-car {v['pmin']}..{v['pmax']}")
 
 
 # ------------------------------------------------------------------------------ run on the real code
@@ -795,9 +812,11 @@ def run_impl(case):
                     m.subregions = {k: df.Region(**v) for k, v in side}
                 return df.Field(m, nvdim=int(f.nvdim), value=f.array[:])
             doc = _try(documented)
-            obs["doc"] = doc[0]
-            if doc[0] == "ok":
-                obs["doc_state"] = state_json(doc[1])
+            if doc[0] != res[0]:
+                fail(f"legacy file: from_file {res[0]} but Region/Mesh/Field built from the stored items directly: {doc[0]}"
+                     + (f" ({res[1]})" if res[0] == "err" else ""))
+            elif doc[0] == "ok" and state_json(doc[1]) != obs["loaded"]:
+                fail("legacy file: field read differs from Field(Mesh(Region(p1, p2), n, side-car subregions), nvdim=dim, value=array)")
             obs["nontrivial"] = True
             return obs
 
@@ -860,7 +879,7 @@ def model_requests(case, obs):
     if case["kind"] == "suffix":
         return [dict(op="fmt", suffix=case["suffix"])]
     if case["kind"] == "legacy":
-        return [dict(op="load", file=dict(version=None, legacy=obs["legacy"])), dict(op="legacy_doc", legacy=obs["legacy"])]
+        return [dict(op="load", file=dict(version=None, legacy=obs["legacy"]))]
     if "state" not in obs:
         return []
     if case["kind"] == "rt":
@@ -995,11 +1014,6 @@ def compare(case, obs, rs):
             dis.append(f"legacy reader: impl {obs['res']} vs model {'ok' if 'ok' in r else r}")
         elif "ok" in r:
             cmp_state("legacy", obs["loaded"], r["ok"], dis)
-        d = rs[1]
-        if ("ok" in d) != (obs["doc"] == "ok"):
-            dis.append(f"documented legacy reader (real constructors): {obs['doc']} vs model legacyLoadDoc {'ok' if 'ok' in d else d}")
-        elif "ok" in d:
-            cmp_state("legacy(documented)", obs["doc_state"], d["ok"], dis)
         return dis
     if case["kind"] == "rt" and "view_error" in obs:
         return [f"written file does not have the documented layout (h5py view failed: {obs['view_error']})"]
@@ -1051,8 +1065,6 @@ def nontrivial(case, obs):
 
 
 def known(case, text):
-    if case["kind"] == "legacy" and text.startswith("legacy-layout file rejected: TypeError: 'nvdim' must be of type int"):
-        return "D31"
     if case["kind"] == "rt" and case.get("unit") == "None" and text.startswith("unit changed: 'None' -> None"):
         return "D32"
     if case["kind"] == "rt" and case.get("dtype") in ("i8",) and case.get("bigint") and (
